@@ -150,6 +150,7 @@ class Interp:
         self.globals = {}       # module var bindings
         self.bound_assumptions = []
         self.inbounds = []
+        self.nonzero_conds = []     # the division-by-zero part of `inbounds`
         self.assumptions = []
         self.trace = []
         self.iters = []         # stack of (loop id, k, value term)
@@ -1532,7 +1533,9 @@ class Interp:
                 raise Unsupported("literal division by zero")
             return
         g = getattr(self, "gcur", None)
-        self.inbounds.append(z3.Implies(g, y != 0) if g is not None else y != 0)
+        c = z3.Implies(g, y != 0) if g is not None else y != 0
+        self.inbounds.append(c)
+        self.nonzero_conds.append(c)
 
     def _mod(self, x, y):
         self._nonzero(y)
